@@ -82,13 +82,13 @@ def run(ctx, chk):
               "ModuleHeader::new", "fields %s" % d, raw.where("new", "ModuleHeader"))
     from . import c06
     # version pack/unpack inverse (R-VER of C06) is evaluated there; re-evaluate the two functions here
-    f1 = ctx.rspirv.fn("rspirv::utils::version", "create_word_from_version")
-    f2 = ctx.rspirv.fn("rspirv::utils::version", "create_version_from_word")
-    a, b = f1["sig"]["params"][0][0], f1["sig"]["params"][1][0]
-    t1 = [show_stmt(s) for s in f1["body"][1]]
-    t2 = [show_stmt(s) for s in f2["body"][1]]
-    chk.check(R5, len(t1) == 1 and t1[0].endswith("::from_le_bytes([0, %s, %s, 0])" % (b, a)) and len(t2) == 2 and t2[1] == "(bytes[2], bytes[1])",
-              "version-roundtrip", "pack %s unpack %s" % (t1, t2), raw.where("create_word_from_version", None, "version.rs"))
+    from . import lookx, asmx
+    try:
+        wv, vv = lookx.version_functions(ctx)
+        good = wv == asmx.w32([0, ("byte", "minor"), ("byte", "major"), 0]) and vv == ("tuple", [("byte", "b2"), ("byte", "b1")])
+        chk.check(R5, good, "version-roundtrip", "pack %s unpack %s" % (wv, vv), raw.where("create_word_from_version", None, "version.rs"))
+    except Anchor as ex:
+        chk.bad(R5, "version-roundtrip", "not analysable: %s" % ex, raw.where("create_word_from_version", None, "version.rs"))
 
     R7 = chk.rule("S7-NO-NARROWING", "between decoding a word and storing/looking it up no value is narrowed by an `as` cast that can drop "
                   "set bits: the only narrowing integer casts in rspirv::binary::parser are the two halves of the first instruction word")
